@@ -308,6 +308,20 @@ impl<'a> Iterator for Tokenizer<'a> {
     }
 }
 
+/// Debug rendering and byte span of every token of `input` (verification harness only).
+#[cfg(feature = "verif")]
+pub(crate) fn verif_tokens(input: &str) -> Vec<(std::string::String, usize, usize)> {
+    let mut t = Tokenizer::new(input);
+    let mut out = Vec::new();
+    loop {
+        let before = t.offset();
+        match t.next() {
+            Some(tok) => out.push((format!("{tok:?}"), before, t.offset())),
+            None => return out,
+        }
+    }
+}
+
 /// True if `c` is considered a whitespace according to Rust language definition.
 /// See [Rust language reference](https://doc.rust-lang.org/reference/whitespace.html)
 /// for definitions of these classes.
